@@ -48,6 +48,10 @@ def ts(t, style='Z'):
         return base + '+00:00'
     if style == '+01:00':
         return _time.strftime('%Y-%m-%dT%H:%M:%S', env._real_gmtime(t + 3600)) + '+01:00'
+    if len(style) == 6 and style[0] in '+-' and style[3] == ':':
+        # the same instant written in another zone
+        off = (int(style[1:3]) * 3600 + int(style[4:6]) * 60) * (1 if style[0] == '+' else -1)
+        return _time.strftime('%Y-%m-%dT%H:%M:%S', env._real_gmtime(t + off)) + style
     raise ValueError(style)
 
 
